@@ -4,7 +4,10 @@
 //! paused-clock tokio runtime and reports the events arriving on the manager's response channel.
 //!
 //! Ops (same as `lean/BarterModel/Driver/C07.lean`):
-//!   `init T n` | `open|cancel ex ins strat cid body delay reply fills eex eins estrat ecid ebody`
+//!   `init T n [m]` (m configured assets, default 0)
+//!   | `open|cancel ex ins strat cid body delay reply fills eex eins estrat ecid ebody`
+//!     reply = ok | rej | inv<i> | conn_timeout | conn_offline | conn_socket | ainv<a> | bal<a> | rate | acx | aff
+//!     (the scripted client returns the real `UnindexedOrderError` values)
 //!   | `adv dt` (sleep: timers fire one by one) | `jump dt` (`tokio::time::advance`: late poll) | `shutdown`
 //! One model tick = 10 ms of virtual time.
 use barter::execution::{AccountStreamEvent, manager::ExecutionManager, request::ExecutionRequest};
@@ -31,7 +34,7 @@ use barter_execution::{
 };
 use barter_instrument::{
     Keyed, Side,
-    asset::{QuoteAsset, name::AssetNameExchange},
+    asset::{AssetIndex, QuoteAsset, name::AssetNameExchange},
     exchange::{ExchangeId, ExchangeIndex},
     instrument::{InstrumentIndex, name::InstrumentNameExchange},
 };
@@ -61,6 +64,16 @@ enum Reply {
     Ok,
     Rejected,
     InvalidIns(usize),
+    /// `Err(UnindexedOrderError::Connectivity(_))` as the CLIENT's answer
+    ConnTimeout,
+    ConnOffline,
+    ConnSocket,
+    /// `Rejected(ApiError::AssetInvalid(asset, _))` / `BalanceInsufficient(asset, _)`: asset NAME `ast<a>`
+    AssetInvalid(usize),
+    BalanceInsufficient(usize),
+    RateLimit,
+    AlreadyCancelled,
+    AlreadyFullyFilled,
 }
 
 /// What the scripted client does with the next request it is handed.
@@ -93,6 +106,10 @@ fn exchange_id(e: usize) -> ExchangeId {
 
 fn ins_name(i: usize) -> InstrumentNameExchange {
     InstrumentNameExchange::new(format!("ins{i}"))
+}
+
+fn asset_name(a: usize) -> AssetNameExchange {
+    AssetNameExchange::new(format!("ast{a}"))
 }
 
 fn body_fields(body: u64) -> (Side, Decimal, Decimal) {
@@ -133,12 +150,22 @@ impl Script {
     }
 
     fn error(&self) -> UnindexedOrderError {
+        use UnindexedApiError as A;
         match self.reply {
-            Reply::InvalidIns(i) => UnindexedOrderError::Rejected(UnindexedApiError::InstrumentInvalid(
-                ins_name(i),
-                "invalid".into(),
-            )),
-            _ => UnindexedOrderError::Rejected(UnindexedApiError::OrderRejected("no".into())),
+            Reply::InvalidIns(i) => UnindexedOrderError::Rejected(A::InstrumentInvalid(ins_name(i), "invalid".into())),
+            Reply::ConnTimeout => UnindexedOrderError::Connectivity(ConnectivityError::Timeout),
+            Reply::ConnOffline => {
+                UnindexedOrderError::Connectivity(ConnectivityError::ExchangeOffline(ExchangeId::Mock))
+            }
+            Reply::ConnSocket => UnindexedOrderError::Connectivity(ConnectivityError::Socket("reset".into())),
+            Reply::AssetInvalid(a) => UnindexedOrderError::Rejected(A::AssetInvalid(asset_name(a), "invalid".into())),
+            Reply::BalanceInsufficient(a) => {
+                UnindexedOrderError::Rejected(A::BalanceInsufficient(asset_name(a), "Available 0, Required 1".into()))
+            }
+            Reply::RateLimit => UnindexedOrderError::Rejected(A::RateLimit),
+            Reply::AlreadyCancelled => UnindexedOrderError::Rejected(A::OrderAlreadyCancelled),
+            Reply::AlreadyFullyFilled => UnindexedOrderError::Rejected(A::OrderAlreadyFullyFilled),
+            Reply::Rejected | Reply::Ok => UnindexedOrderError::Rejected(A::OrderRejected("no".into())),
         }
     }
 
@@ -248,10 +275,15 @@ fn strip(prefix: char, s: &str) -> String {
 fn order_error_str(e: &OrderError) -> String {
     match e {
         OrderError::Connectivity(ConnectivityError::Timeout) => "timeout".into(),
-        OrderError::Connectivity(_) => "connectivity".into(),
+        OrderError::Connectivity(ConnectivityError::ExchangeOffline(_)) => "offline".into(),
+        OrderError::Connectivity(ConnectivityError::Socket(_)) => "socket".into(),
         OrderError::Rejected(ApiError::OrderRejected(_)) => "rej".into(),
         OrderError::Rejected(ApiError::InstrumentInvalid(i, _)) => format!("inv{}", i.0.wrapping_sub(INDEX_OFFSET)),
-        OrderError::Rejected(_) => "rej-other".into(),
+        OrderError::Rejected(ApiError::AssetInvalid(a, _)) => format!("ainv{}", a.0.wrapping_sub(ASSET_OFFSET)),
+        OrderError::Rejected(ApiError::BalanceInsufficient(a, _)) => format!("bal{}", a.0.wrapping_sub(ASSET_OFFSET)),
+        OrderError::Rejected(ApiError::RateLimit) => "rate".into(),
+        OrderError::Rejected(ApiError::OrderAlreadyCancelled) => "acx".into(),
+        OrderError::Rejected(ApiError::OrderAlreadyFullyFilled) => "aff".into(),
     }
 }
 
@@ -300,6 +332,8 @@ fn canon(event: &AccountStreamEvent) -> (String, String) {
 /// engine indices of its instruments start at this offset (instruments of exchanges that sort before
 /// it occupy 0..INDEX_OFFSET), so an index is never equal to a position in the exchange's own map.
 const INDEX_OFFSET: usize = 3;
+/// likewise for the engine's asset indices of this exchange
+const ASSET_OFFSET: usize = 5;
 
 struct Live {
     req_tx: UnboundedTx<ExecutionRequest<ExchangeIndex, InstrumentIndex>>,
@@ -309,17 +343,15 @@ struct Live {
     status: &'static str,
 }
 
-fn start(timeout: u64, n: usize) -> Live {
+fn start(timeout: u64, n: usize, n_assets: usize) -> Live {
     let (req_tx, req_rx) = mpsc_unbounded();
     let (resp_tx, resp_rx) = mpsc_unbounded();
     let client = ScriptedClient::default();
     let instruments: FnvIndexMap<InstrumentIndex, InstrumentNameExchange> =
         (0..n).map(|i| (InstrumentIndex(INDEX_OFFSET + i), ins_name(i))).collect();
-    let map = ExecutionInstrumentMap::new(
-        Keyed::new(ExchangeIndex(0), ExchangeId::Mock),
-        FnvIndexMap::default(),
-        instruments,
-    );
+    let assets: FnvIndexMap<AssetIndex, AssetNameExchange> =
+        (0..n_assets).map(|a| (AssetIndex(ASSET_OFFSET + a), asset_name(a))).collect();
+    let map = ExecutionInstrumentMap::new(Keyed::new(ExchangeIndex(0), ExchangeId::Mock), assets, instruments);
     let manager = ExecutionManager::new(
         req_rx.into_stream(),
         ticks(timeout),
@@ -372,6 +404,14 @@ fn parse_script(op: &[String]) -> Script {
         reply: match op[7].as_str() {
             "ok" => Reply::Ok,
             "rej" => Reply::Rejected,
+            "conn_timeout" => Reply::ConnTimeout,
+            "conn_offline" => Reply::ConnOffline,
+            "conn_socket" => Reply::ConnSocket,
+            "rate" => Reply::RateLimit,
+            "acx" => Reply::AlreadyCancelled,
+            "aff" => Reply::AlreadyFullyFilled,
+            s if s.starts_with("ainv") => Reply::AssetInvalid(s[4..].parse().expect("reply")),
+            s if s.starts_with("bal") => Reply::BalanceInsufficient(s[3..].parse().expect("reply")),
             s => Reply::InvalidIns(s.strip_prefix("inv").expect("reply").parse().unwrap()),
         },
         fills: op[8] == "1",
@@ -422,7 +462,8 @@ fn run() {
                 let mut burst = false;
                 match op[0].as_str() {
                     "init" => {
-                        live = Some(start(op[1].parse().unwrap(), op[2].parse().unwrap()));
+                        let n_assets = op.get(3).map(|m| m.parse().unwrap()).unwrap_or(0);
+                        live = Some(start(op[1].parse().unwrap(), op[2].parse().unwrap(), n_assets));
                     }
                     "open" | "cancel" => {
                         let l = live.as_mut().expect("init first");
@@ -462,6 +503,8 @@ fn run() {
 struct Gen {
     rng: Rng,
     n: usize,
+    /// configured assets
+    m: usize,
     t: u64,
     faithful_pct: u64,
 }
@@ -488,15 +531,27 @@ impl Gen {
         let cid = self.rng.below(4);
         let body = if open { self.rng.below(5) } else { 0 };
         let delay = self.delay();
-        let mut reply = match self.rng.below(10) {
-            0..=5 => "ok".to_string(),
-            6..=8 => "rej".to_string(),
-            _ => format!("inv{}", self.rng.below(self.n as u64)),
+        let mut reply = match self.rng.below(20) {
+            0..=9 => "ok".to_string(),
+            10..=12 => "rej".to_string(),
+            13 => format!("inv{}", self.rng.below(self.n as u64)),
+            // Connectivity errors as the CLIENT's answer (incl. the manager's own error value, Timeout)
+            14 | 15 => self.rng.pick(&["conn_timeout", "conn_timeout", "conn_offline", "conn_socket"]).to_string(),
+            // asset-carrying API errors: configured assets here (unknown ones below: unfaithful clients)
+            16 | 17 if self.m > 0 => {
+                format!("{}{}", self.rng.pick(&["bal", "bal", "ainv"]), self.rng.below(self.m as u64))
+            }
+            16 | 17 => "rej".to_string(),
+            _ => self.rng.pick(&["rate", "acx", "aff"]).to_string(),
         };
         let fills = if open && self.rng.chance(25) { 1 } else { 0 };
         let (mut eex, mut eins, mut estrat, mut ecid, mut ebody) = (ex, ins, strat, cid, body);
         if !self.rng.chance(self.faithful_pct) {
-            match self.rng.below(7) {
+            match self.rng.below(9) {
+                // unknown ASSET name in the error: the response cannot be indexed and is filtered
+                7 | 8 => {
+                    reply = format!("{}{}", self.rng.pick(&["bal", "ainv"]), self.m + self.rng.below(2) as usize)
+                }
                 0 => eex = 1,
                 1 => eins = self.n + self.rng.below(2) as usize, // unknown instrument name
                 2 => eins = (ins + 1) % self.n.max(1),           // another (or the same) configured instrument
@@ -539,24 +594,31 @@ fn generate(seed: u64, n_cases: usize, tier: &str) {
             &["adv 1", "jump 4"],
             &["adv 1", "shutdown", "adv 5"],
         ];
-        for k1 in ["open", "cancel"] {
-            for k2 in ["open", "cancel"] {
-                for d1 in delays {
-                    for d2 in delays {
-                        for gap in [0, 1] {
-                            for sc in scripts {
-                                id += 1;
-                                out.case(format!("x{id}"));
-                                out.line("init 2 2");
-                                let b1 = if k1 == "open" { 3 } else { 0 };
-                                let b2 = if k2 == "open" { 4 } else { 0 };
-                                out.line(format!("{k1} 0 0 1 7 {b1} {d1} ok 0 0 0 1 7 {b1}"));
-                                if gap > 0 {
-                                    out.line(format!("adv {gap}"));
-                                }
-                                out.line(format!("{k2} 0 1 1 7 {b2} {d2} rej 0 0 1 1 7 {b2}"));
-                                for l in sc {
-                                    out.line(l);
+        // the first client answers `ok` or - the manager's own error value as the CLIENT's answer -
+        // `Err(Connectivity(Timeout))` (the latter family only for the answering delays)
+        for r1 in ["ok", "conn_timeout"] {
+            for k1 in ["open", "cancel"] {
+                for k2 in ["open", "cancel"] {
+                    for d1 in delays {
+                        if r1 != "ok" && d1 == "never" {
+                            continue;
+                        }
+                        for d2 in delays {
+                            for gap in [0, 1] {
+                                for sc in scripts {
+                                    id += 1;
+                                    out.case(format!("x{id}"));
+                                    out.line("init 2 2");
+                                    let b1 = if k1 == "open" { 3 } else { 0 };
+                                    let b2 = if k2 == "open" { 4 } else { 0 };
+                                    out.line(format!("{k1} 0 0 1 7 {b1} {d1} {r1} 0 0 0 1 7 {b1}"));
+                                    if gap > 0 {
+                                        out.line(format!("adv {gap}"));
+                                    }
+                                    out.line(format!("{k2} 0 1 1 7 {b2} {d2} rej 0 0 1 1 7 {b2}"));
+                                    for l in sc {
+                                        out.line(l);
+                                    }
                                 }
                             }
                         }
@@ -570,8 +632,15 @@ fn generate(seed: u64, n_cases: usize, tier: &str) {
         out.case(format!("r{id}"));
         let n = rng.range(1, 3) as usize;
         let t = *rng.pick(&[0u64, 1, 2, 3, 5, 8]);
-        out.line(format!("init {t} {n}"));
-        let mut g = Gen { rng: rng.fork(), n, t, faithful_pct: *rng.pick(&[100u64, 100, 92, 70]) };
+        // configured assets: none (as the manager was configured before the alphabet was extended; 2-arg init),
+        // or 1-3
+        let m = *rng.pick(&[0usize, 1, 2, 2, 3]);
+        if m == 0 {
+            out.line(format!("init {t} {n}"));
+        } else {
+            out.line(format!("init {t} {n} {m}"));
+        }
+        let mut g = Gen { rng: rng.fork(), n, m, t, faithful_pct: *rng.pick(&[100u64, 100, 92, 70]) };
         let max_batch = if thorough { 40 } else { 24 };
         let rounds = g.rng.range(1, 4);
         let panic_case = g.rng.chance(3);
